@@ -1,5 +1,6 @@
 import JF.Lemmas.HeapList
 import JF.Lemmas.HeapPickle
+import JF.Lemmas.HeapLength
 import Mathlib.Order.Basic
 import Mathlib.Order.Lattice
 /-!
@@ -104,4 +105,430 @@ theorem time_fin_lt (bot top : α) (g : Nat → Entry (Time α)) (a b : Time α)
   | false => have := cLt_ntrans _ _ _ h hb; rw [ha] at this; cases this
 
 end TimeOrder
+
+/-! ### histories -/
+
+section Histories
+variable {κ : Type} {cfg : Cfg κ}
+
+/-- one operation of a history; `pickle` is `pickle.loads(pickle.dumps(scheduler))` -/
+inductive Op (κ : Type) where
+  | push (t : κ) (h : Nat)
+  | trash (h : Nat)
+  | get
+  | pickle
+
+/-- the plain reference model: dictionary handler ↦ current event -/
+def specStep (live : Live κ) : Op κ → Live κ
+  | .push t h => live.set h (some t)
+  | .trash h => live.set h none
+  | .get => live
+  | .pickle => live
+
+def specRun (live : Live κ) : List (Op κ) → Live κ
+  | [] => live
+  | op :: ops => specRun (specStep live op) ops
+
+/-- the mediator protocol: a handler (a non-`NULL` object) is pushed only while it has no current event -/
+def Protocol (live : Live κ) : List (Op κ) → Prop
+  | [] => True
+  | .push t h :: ops => h ≠ 0 ∧ live h = none ∧ Protocol (live.set h (some t)) ops
+  | op :: ops => Protocol (specStep live op) ops
+
+def hStep (cfg : Cfg κ) (W : Nat) (s : HSched κ) : Op κ → HSched κ
+  | .push t h => s.push cfg W t h
+  | .trash h => s.trash h
+  | .get => (s.get cfg).1
+  | .pickle => s.pickle cfg
+
+def hRun (cfg : Cfg κ) (W : Nat) (s : HSched κ) (ops : List (Op κ)) : HSched κ := ops.foldl (hStep cfg W) s
+
+/-- list scheduler; a `trash_event` that raises `SchedulerError` leaves the scheduler unchanged; its pickle
+round trip is the identity on the Python list -/
+def lStep (cfg : Cfg κ) (s : LSched κ) : Op κ → LSched κ
+  | .push t h => s.push t h
+  | .trash h => (s.trash h).getD s
+  | .get => (s.get cfg).1
+  | .pickle => s
+
+def lRun (cfg : Cfg κ) (s : LSched κ) (ops : List (Op κ)) : LSched κ := ops.foldl (lStep cfg) s
+
+theorem live_set_none_of_none (live : Live κ) (h : Nat) (hl : live h = none) : live.set h none = live := by
+  funext x; unfold Live.set; split
+  · next e => rw [e, hl]
+  · rfl
+
+/-- the refinement relations survive every protocol-respecting history -/
+theorem run_rel (o : StrictWeak cfg) {W : Nat} (hW : 0 < W) :
+    ∀ (ops : List (Op κ)) (s : HSched κ) (ls : LSched κ) (live : Live κ),
+      Rel cfg W s live → LRel ls live → Protocol live ops →
+      Rel cfg W (hRun cfg W s ops) (specRun live ops) ∧ LRel (lRun cfg ls ops) (specRun live ops) := by
+  intro ops
+  induction ops with
+  | nil => intro s ls live R L _; exact ⟨R, L⟩
+  | cons op ops ih =>
+    intro s ls live R L hp
+    cases op with
+    | push t h =>
+      obtain ⟨h0, hl, hp⟩ := hp
+      exact ih _ _ _ (push_rel o hW R t h0 hl) (lpush_rel L t hl) hp
+    | trash h =>
+      refine ih _ _ _ (trash_rel R h) ?_ hp
+      show LRel ((ls.trash h).getD ls) (live.set h none)
+      cases hl : live h with
+      | none => rw [(ltrash_rel L h).1 hl, live_set_none_of_none live h hl]; exact L
+      | some t => obtain ⟨ls', e, L'⟩ := (ltrash_rel L h).2 t hl; rw [e]; exact L'
+    | get =>
+      refine ih _ _ _ (get_rel o R).1 ⟨?_, ?_⟩ hp
+      · show ∀ h t, (t, h) ∈ (ls.get cfg).1.times ↔ live h = some t
+        rw [(lget_rel o L).1]; exact L.mem
+      · show (ls.get cfg).1.times.Pairwise _
+        rw [(lget_rel o L).1]; exact L.nodup
+    | pickle => exact ih _ _ _ (pickle_spec o R).1 L hp
+
+/-- the heap length (sentinel included) grows by at most one per operation -/
+theorem run_length (o : StrictWeak cfg) {W : Nat} (hW : 0 < W) :
+    ∀ (ops : List (Op κ)) (s : HSched κ) (live : Live κ),
+      Rel cfg W s live → Protocol live ops →
+      max (hRun cfg W s ops).heap.length 1 ≤ max s.heap.length 1 + ops.length := by
+  intro ops
+  induction ops with
+  | nil => intro s live _ _; simp [hRun]
+  | cons op ops ih =>
+    intro s live R hp
+    have step : ∀ s' live', Rel cfg W s' live' → Protocol live' ops →
+        max s'.heap.length 1 ≤ max s.heap.length 1 + 1 →
+        max (hRun cfg W s' ops).heap.length 1 ≤ max s.heap.length 1 + (ops.length + 1) := by
+      intro s' live' R' hp' hl
+      have := ih s' live' R' hp'
+      omega
+    cases op with
+    | push t h =>
+      obtain ⟨h0, hl, hp⟩ := hp
+      exact step _ _ (push_rel o hW R t h0 hl) hp (push_length o R t h)
+    | trash h => exact step _ _ (trash_rel R h) hp (by show max s.heap.length 1 ≤ _; omega)
+    | get =>
+      refine step _ _ (get_rel o R).1 hp ?_
+      have h1 : (s.get cfg).1.heap = (root cfg (deadCb s.mv) s.heap).1 := by
+        unfold HSched.get
+        generalize root cfg (deadCb s.mv) s.heap = rt
+        obtain ⟨a, b⟩ := rt
+        dsimp only
+        split
+        · rfl
+        · split <;> rfl
+      have := (root_spec o (deadCb s.mv) R.inv).1.len
+      show max (s.get cfg).1.heap.length 1 ≤ _
+      rw [h1]; omega
+    | pickle =>
+      refine step _ _ (pickle_spec o R).1 hp ?_
+      have := (pickle_spec o R).2.2.2.2
+      show max (s.pickle cfg).heap.length 1 ≤ _
+      rw [this]; split <;> omega
+
+variable (o : StrictWeak cfg) {W : Nat} (hW : 0 < W) (ops : List (Op κ))
+  (hp : Protocol (fun _ => none : Live κ) ops)
+include o hW hp
+
+/-- state of the heap scheduler / list scheduler / reference model after the history `ops` -/
+local notation "HS" => hRun cfg W (HSched.init cfg) ops
+local notation "LS" => lRun cfg (LSched.init cfg) ops
+local notation "LIVE" => specRun (fun _ => none : Live κ) ops
+
+/-- **no invalid memory access**: after any protocol-respecting history no array access of the model of
+`heap.c` left the allocated block (nor did a loop run out of fuel), the sentinel is in place, the
+spare slot exists and the heap order holds -/
+theorem heap_safe : (HS).heap.fault = false ∧ Inv cfg (HS).heap :=
+  let R := (run_rel o hW ops _ _ _ (rel_init cfg W) (lrel_init cfg) hp).1
+  ⟨R.inv.1.1, R.inv⟩
+
+/-- … and so does the `get_succeeding_event` that follows (the call that runs `root`/`bubble_down`) -/
+theorem heap_safe_get : ((HS).get cfg).1.heap.fault = false :=
+  let R := (run_rel o hW ops _ _ _ (rel_init cfg W) (lrel_init cfg) hp).1
+  (get_rel o R).1.inv.1.1
+
+/-- **the C `uint` length cannot wrap**: after a history of `n` operations the heap length (sentinel
+included) is at most `n + 1`; so for histories shorter than `2^32 - 2` operations the model's unbounded
+`length` is the C `uint` (the allocated size is the least `64·2^k ≥ length + 1` ever needed) -/
+theorem length_le : (HS).heap.length ≤ ops.length + 1 := by
+  have := run_length o hW ops (HSched.init cfg) _ (rel_init cfg W) hp
+  have h0 : (HSched.init cfg).heap.length = 0 := rfl
+  rw [h0] at this; omega
+
+/-- every stored counter fits the C `unsigned int` (`< W`), and never exceeds the handler's current counter -/
+theorem counters_fit (e : Entry κ) (he : Mem cfg (HS).heap e) :
+    e.c < W ∧ ∃ m, mvGet (HS).mv e.h = some m ∧ e.c ≤ m :=
+  let R := (run_rel o hW ops _ _ _ (rel_init cfg W) (lrel_init cfg) hp).1
+  (R.cnt e he).2
+
+/-- **the heap scheduler yields a live event with the smallest time**: after any protocol-respecting
+history, `get_succeeding_event` returns (or, if the monotonicity assertion fires, reports) a handler
+whose *current* event has a finite time that no current finite event undercuts; it raises the
+"empty" `SchedulerError` exactly when no handler has a current finite event. -/
+theorem heap_get_minimal : GetOK cfg (LIVE) ((HS).get cfg).2 :=
+  let R := (run_rel o hW ops _ _ _ (rel_init cfg W) (lrel_init cfg) hp).1
+  (get_rel o R).2.1
+
+/-- **trashed events are never returned** (nor handlers that never pushed) -/
+theorem heap_never_returns_trashed (h : Nat) (t : κ) (hl : (LIVE) h = none) :
+    ((HS).get cfg).2 ≠ .ok h t := by
+  intro e
+  have := heap_get_minimal o hW ops hp
+  rw [e] at this
+  have h1 : (LIVE) h = some t := this.1
+  rw [hl] at h1; cases h1
+
+/-- **empty ⇒ scheduler error**: with no current event at all both schedulers raise the "empty" error -/
+theorem empty_error (he : ∀ h, (LIVE) h = none) :
+    ((HS).get cfg).2 = .empty ∧ ((LS).get cfg).2 = .empty := by
+  have RL := run_rel o hW ops _ _ _ (rel_init cfg W) (lrel_init cfg) hp
+  constructor
+  · have := (get_rel o RL.1).2.1
+    cases hr : ((HS).get cfg).2 with
+    | empty => rfl
+    | ok h t => rw [hr] at this; have := this.1; rw [he] at this; cases this
+    | guard h t => rw [hr] at this; have := this.1; rw [he] at this; cases this
+  · have := (lget_rel o RL.2).2
+    cases hr : ((LS).get cfg).2 with
+    | empty => rfl
+    | ok h t => rw [hr] at this; have := this.1; rw [he] at this; cases this
+    | guard h t => rw [hr] at this; have := this.1; rw [he] at this; cases this
+
+/-- the list scheduler returns a current event that no current event undercuts -/
+theorem list_get_minimal : LGetOK cfg (LIVE) ((LS).get cfg).2 :=
+  (lget_rel o (run_rel o hW ops _ _ _ (rel_init cfg W) (lrel_init cfg) hp).2).2
+
+/-- handler and time carried by an outcome -/
+def resEvent : GetRes κ → Option (Nat × κ)
+  | .ok h t | .guard h t => some (h, t)
+  | .empty => none
+
+omit hW hp in
+/-- **heap scheduler, list scheduler and reference model agree on the returned time** whenever a finite
+current event exists (infinite times are never returned before finite ones): both return a current
+event, both times are finite, and neither is smaller than the other nor than any current finite time.
+`hfin` is the only fact used about `finite` (`time_fin_lt` proves it for `Time`). -/
+theorem agree_time
+    (hfin : ∀ a b, cfg.finite a = true → cfg.finite b = false → cfg.lt a b = true)
+    {s : HSched κ} {ls : LSched κ} {live : Live κ} (R : Rel cfg W s live) (L : LRel ls live)
+    (hex : ∃ h t, live h = some t ∧ cfg.finite t = true) :
+    ∃ hH tH hL tL, resEvent (s.get cfg).2 = some (hH, tH) ∧ resEvent (ls.get cfg).2 = some (hL, tL) ∧
+      live hH = some tH ∧ live hL = some tL ∧ cfg.finite tH = true ∧ cfg.finite tL = true ∧
+      cfg.lt tH tL = false ∧ cfg.lt tL tH = false ∧
+      ∀ h t, live h = some t → cfg.lt t tH = false ∧ cfg.lt t tL = false := by
+  obtain ⟨h0, t0, hl0, hf0⟩ := hex
+  have G := (get_rel o R).2.1
+  have LG := (lget_rel o L).2
+  -- the list scheduler returns something
+  have key : ∀ hL tL, live hL = some tL → (∀ h' t', live h' = some t' → cfg.lt t' tL = false) →
+      ∀ hH tH, live hH = some tH → cfg.finite tH = true →
+        (∀ h' t', live h' = some t' → cfg.finite t' = true → cfg.lt t' tH = false) →
+      cfg.finite tL = true ∧ cfg.lt tH tL = false ∧ cfg.lt tL tH = false ∧
+        ∀ h t, live h = some t → cfg.lt t tH = false ∧ cfg.lt t tL = false := by
+    intro hL tL lL mL hH tH lH fH mH
+    have fL : cfg.finite tL = true := by
+      cases hf : cfg.finite tL with
+      | true => rfl
+      | false => have := hfin _ _ hf0 hf; rw [mL _ _ hl0] at this; cases this
+    refine ⟨fL, mL _ _ lH, mH _ _ lL fL, fun h t hl => ⟨?_, mL _ _ hl⟩⟩
+    cases hf : cfg.finite t with
+    | true => exact mH _ _ hl hf
+    | false => exact o.asymm (hfin _ _ fH hf)
+  cases hr : (s.get cfg).2 with
+  | empty => rw [hr] at G; have := G h0 t0 hl0; rw [hf0] at this; cases this
+  | ok hH tH =>
+    rw [hr] at G
+    cases hl : (ls.get cfg).2 with
+    | empty => rw [hl] at LG; have := LG h0; rw [hl0] at this; cases this
+    | ok hL tL =>
+      rw [hl] at LG
+      obtain ⟨a, b, c, d⟩ := key hL tL LG.1 LG.2 hH tH G.1 G.2.1 G.2.2
+      exact ⟨hH, tH, hL, tL, rfl, rfl, G.1, LG.1, G.2.1, a, b, c, d⟩
+    | guard hL tL =>
+      rw [hl] at LG
+      obtain ⟨a, b, c, d⟩ := key hL tL LG.1 LG.2 hH tH G.1 G.2.1 G.2.2
+      exact ⟨hH, tH, hL, tL, rfl, rfl, G.1, LG.1, G.2.1, a, b, c, d⟩
+  | guard hH tH =>
+    rw [hr] at G
+    cases hl : (ls.get cfg).2 with
+    | empty => rw [hl] at LG; have := LG h0; rw [hl0] at this; cases this
+    | ok hL tL =>
+      rw [hl] at LG
+      obtain ⟨a, b, c, d⟩ := key hL tL LG.1 LG.2 hH tH G.1 G.2.1 G.2.2
+      exact ⟨hH, tH, hL, tL, rfl, rfl, G.1, LG.1, G.2.1, a, b, c, d⟩
+    | guard hL tL =>
+      rw [hl] at LG
+      obtain ⟨a, b, c, d⟩ := key hL tL LG.1 LG.2 hH tH G.1 G.2.1 G.2.2
+      exact ⟨hH, tH, hL, tL, rfl, rfl, G.1, LG.1, G.2.1, a, b, c, d⟩
+
+/-- `agree_time` after any protocol-respecting history (pickling at any point included) -/
+theorem agree_time_history
+    (hfin : ∀ a b, cfg.finite a = true → cfg.finite b = false → cfg.lt a b = true)
+    (hex : ∃ h t, (LIVE) h = some t ∧ cfg.finite t = true) :
+    ∃ hH tH hL tL, resEvent ((HS).get cfg).2 = some (hH, tH) ∧ resEvent ((LS).get cfg).2 = some (hL, tL) ∧
+      (LIVE) hH = some tH ∧ (LIVE) hL = some tL ∧ cfg.finite tH = true ∧ cfg.finite tL = true ∧
+      cfg.lt tH tL = false ∧ cfg.lt tL tH = false ∧
+      ∀ h t, (LIVE) h = some t → cfg.lt t tH = false ∧ cfg.lt t tL = false :=
+  let RL := run_rel o hW ops _ _ _ (rel_init cfg W) (lrel_init cfg) hp
+  agree_time o hfin RL.1 RL.2 hex
+
+omit hW hp in
+/-- if the minimum is unique, heap scheduler and list scheduler return the same *handler* -/
+theorem agree_handler_unique
+    (hfin : ∀ a b, cfg.finite a = true → cfg.finite b = false → cfg.lt a b = true)
+    {s : HSched κ} {ls : LSched κ} {live : Live κ} (R : Rel cfg W s live) (L : LRel ls live)
+    (hex : ∃ h t, live h = some t ∧ cfg.finite t = true)
+    (huniq : ∀ h t h' t', live h = some t → live h' = some t' → h ≠ h' →
+      cfg.lt t t' = true ∨ cfg.lt t' t = true) :
+    (resEvent (s.get cfg).2).map (·.1) = (resEvent (ls.get cfg).2).map (·.1) := by
+  obtain ⟨hH, tH, hL, tL, e1, e2, l1, l2, _, _, n1, n2, _⟩ := agree_time o hfin R L hex
+  rw [e1, e2]
+  by_cases hne : hH = hL
+  · rw [hne]; rfl
+  · rcases huniq hH tH hL tL l1 l2 hne with h | h
+    · rw [n1] at h; cases h
+    · rw [n2] at h; cases h
+
+/-- the monotonicity assertion (`_event_time_increasing`): a handler is returned iff its time is not before the
+last returned time, which then becomes the last returned time; otherwise the scheduler error is raised and
+the last returned time is kept -/
+theorem heap_get_guard :
+    match ((HS).get cfg).2 with
+    | .ok _ t => cfg.lt t (HS).last = false ∧ ((HS).get cfg).1.last = t
+    | .guard _ t => cfg.lt t (HS).last = true ∧ ((HS).get cfg).1.last = (HS).last
+    | .empty => ((HS).get cfg).1.last = (HS).last :=
+  let R := (run_rel o hW ops _ _ _ (rel_init cfg W) (lrel_init cfg) hp).1
+  (get_rel o R).2.2.2
+
+/-- **pickle round trip**: re-inserting the entries in array order reproduces the array index by index
+(no bubble-up step fires), so the unpickled scheduler is the same scheduler -/
+theorem pickle_id :
+    (∀ i, 1 ≤ i → i < (HS).heap.length → get cfg ((HS).pickle cfg).heap i = get cfg (HS).heap i) ∧
+    ((HS).pickle cfg).heap.length = (if (HS).heap.length ≤ 1 then 0 else (HS).heap.length) ∧
+    ((HS).pickle cfg).mv = (HS).mv ∧ ((HS).pickle cfg).last = (HS).last ∧
+    ((HS).pickle cfg).heap.fault = false :=
+  let R := (run_rel o hW ops _ _ _ (rel_init cfg W) (lrel_init cfg) hp).1
+  let P := pickle_spec o R
+  ⟨P.2.2.2.1, P.2.2.2.2, P.2.1, P.2.2.1, P.1.inv.1.1⟩
+
+/-- **counter overflow path**: a push for an idle handler whose deletion counter cannot be passed to C
+(`≥ W`) leaves exactly one entry of that handler — the new one, with counter 0 — resets the counter
+to 0 and keeps every entry of the other handlers -/
+theorem overflow_ok (t : κ) (h : Nat) (h0 : h ≠ 0) (hl : (LIVE) h = none) (hf : cfg.finite t = true)
+    (m : Nat) (hm : mvGet (HS).mv h = some m) (hmW : W ≤ m) :
+    let s' := (HS).push cfg W t h
+    mvGet s'.mv h = some 0 ∧
+    (∀ e, Mem cfg s'.heap e → e.h = h → e = ⟨t, h, 0⟩) ∧ Mem cfg s'.heap ⟨t, h, 0⟩ ∧
+    (∀ e, e.h ≠ h → (Mem cfg s'.heap e ↔ Mem cfg (HS).heap e)) ∧
+    Rel cfg W s' ((LIVE).set h (some t)) := by
+  have R := (run_rel o hW ops _ _ _ (rel_init cfg W) (lrel_init cfg) hp).1
+  intro s'
+  have hR' : Rel cfg W s' ((LIVE).set h (some t)) := push_rel o hW R t h0 hl
+  have hs' : s' = { (HS) with mv := mvSet (mvSetDefault (HS).mv h 0) h 0,
+                               heap := insert cfg (deleteEvents cfg (HS).heap h) t h 0 } := by
+    show (HS).push cfg W t h = _
+    unfold HSched.push
+    have : ¬ ((mvGet (HS).mv h).getD 0 < W) := by rw [hm]; simp; omega
+    simp only [hf, if_true, this, if_false]
+  obtain ⟨I1, _, M1⟩ := deleteEvents_spec o h R.inv
+  obtain ⟨_, M', _, _⟩ := insert_spec o t h 0 I1
+  rw [hs']
+  refine ⟨by simp [mvGet_mvSet], ?_, (M' _).2 (Or.inl rfl), ?_, by rw [← hs']; exact hR'⟩
+  · intro e he heh
+    rcases (M' e).1 he with h1 | h1
+    · exact h1
+    · exact absurd heh ((M1 e).1 h1).2
+  · intro e hne
+    simp only
+    rw [M' e, M1 e]
+    constructor
+    · rintro (h1 | ⟨h1, _⟩)
+      · rw [h1] at hne; exact absurd rfl hne
+      · exact h1
+    · intro h1; exact Or.inr ⟨h1, hne⟩
+
+end Histories
+
+/-- for `Time` keys compared as in `heap.c` (quotient, then remainder) over any linear order with a least
+element, the heap scheduler and the list scheduler return **the same time** after every
+protocol-respecting history with a finite current event, and it is the least current time -/
+theorem agree_time_Time {α : Type} [LinearOrder α] (bot top : α) (g : Nat → Entry (Time α)) (hb : ∀ a, bot ≤ a)
+    {W : Nat} (hW : 0 < W) (ops : List (Op (Time α))) (hp : Protocol (fun _ => none : Live (Time α)) ops)
+    (hex : ∃ h t, specRun (fun _ => none : Live (Time α)) ops h = some t ∧ (timeCfg bot top g).finite t = true) :
+    ∃ hH hL t, resEvent ((hRun (timeCfg bot top g) W (HSched.init (timeCfg bot top g)) ops).get (timeCfg bot top g)).2 = some (hH, t) ∧
+      resEvent ((lRun (timeCfg bot top g) (LSched.init (timeCfg bot top g)) ops).get (timeCfg bot top g)).2 = some (hL, t) ∧
+      specRun (fun _ => none : Live (Time α)) ops hH = some t ∧ specRun (fun _ => none : Live (Time α)) ops hL = some t ∧
+      ∀ h t', specRun (fun _ => none : Live (Time α)) ops h = some t' → Time.cLt t' t = false := by
+  obtain ⟨hH, tH, hL, tL, e1, e2, l1, l2, _, _, n1, n2, mn⟩ :=
+    agree_time_history (timeCfg_strictWeak bot top g hb) hW ops hp (time_fin_lt bot top g) hex
+  have : tH = tL := time_total tH tL n1 n2
+  subst this
+  exact ⟨hH, hL, tH, e1, e2, l1, l2, fun h t' hl => (mn h t' hl).1⟩
+
+/-! ### non-vacuity: concrete instances of every hypothesis used above -/
+
+section Examples
+
+/-- `Time` over `ℕ` (quotient-then-remainder comparison of `heap.c`), sentinel `(0, 0)`, "infinity" `(1000, 1000)`,
+fresh memory filled with a bogus entry -/
+def exCfg : Cfg (Time Nat) := timeCfg 0 1000 (fun _ => ⟨⟨7, 7⟩, 99, 5⟩)
+
+/-- `StrictWeak` holds for it … -/
+example : StrictWeak exCfg := timeCfg_strictWeak 0 1000 _ (fun a => Nat.zero_le a)
+/-- … and so does the hypothesis `hfin` of `agree_time` -/
+example : ∀ a b, exCfg.finite a = true → exCfg.finite b = false → exCfg.lt a b = true :=
+  time_fin_lt 0 1000 _
+
+/-- a protocol-respecting history with ties (equal quotient and remainder, equal quotient only), an
+infinite time, a trash, a lazy deletion at the root, a pickle round trip and a re-push -/
+def exHist : List (Op (Time Nat)) :=
+  [.push ⟨1, 5⟩ 1, .push ⟨1, 5⟩ 2, .push ⟨1, 2⟩ 3, .push ⟨1000, 1000⟩ 4, .trash 3, .get, .pickle,
+   .push ⟨1, 7⟩ 3, .trash 1, .get]
+
+example : Protocol (fun _ => none) exHist := by
+  simp [exHist, Protocol, specStep, Live.set]
+
+/-- a finite current event exists after it (hypothesis `hex` of `agree_time_history`) -/
+example : ∃ h t, specRun (fun _ => none) exHist h = some t ∧ exCfg.finite t = true :=
+  ⟨2, ⟨1, 5⟩, by simp [exHist, specRun, specStep, Live.set], by decide⟩
+
+/-- on this history the model of the heap scheduler returns handler 2 at time (1, 5): the trashed handlers 3
+(smaller time) and 1 (equal time) are skipped -/
+example : (resEvent ((hRun exCfg 4294967296 (HSched.init exCfg) exHist).get exCfg).2).map
+    (fun p => (p.1, p.2.q, p.2.r)) = some (2, 1, 5) := by decide +kernel
+
+/-- hypotheses of `overflow_ok` with the counter range `W = 2`: after two trashes the counter of handler 1 is 2 -/
+example : Protocol (fun _ => none) ([.trash 1, .trash 1] : List (Op (Time Nat))) ∧
+    specRun (fun _ => none) ([.trash 1, .trash 1] : List (Op (Time Nat))) 1 = none ∧
+    mvGet (hRun exCfg 2 (HSched.init exCfg) [.trash 1, .trash 1]).mv 1 = some 2 := by
+  refine ⟨by simp [Protocol], by simp [specRun, specStep, Live.set], by decide⟩
+
+/-- hypothesis `huniq` of `agree_handler_unique`: a history whose current events have pairwise different times -/
+example : ∀ h t h' t',
+    specRun (fun _ => none) ([.push ⟨1, 5⟩ 1, .push ⟨1, 6⟩ 2] : List (Op (Time Nat))) h = some t →
+    specRun (fun _ => none) ([.push ⟨1, 5⟩ 1, .push ⟨1, 6⟩ 2] : List (Op (Time Nat))) h' = some t' → h ≠ h' →
+    exCfg.lt t t' = true ∨ exCfg.lt t' t = true := by
+  intro h t h' t' h1 h2 hne
+  simp only [specRun, specStep, Live.set] at h1 h2
+  split at h1 <;> split at h2
+  · omega
+  · split at h2
+    · cases h1; cases h2; right; decide
+    · cases h2
+  · split at h1
+    · cases h1; cases h2; left; decide
+    · cases h1
+  · split at h1 <;> split at h2
+    · omega
+    · cases h2
+    · cases h1
+    · cases h1
+
+/-- `agree_time_Time` applies to `exCfg` / `exHist` -/
+example := agree_time_Time (α := Nat) 0 1000 (fun _ => ⟨⟨7, 7⟩, 99, 5⟩) (fun a => Nat.zero_le a)
+    (show 0 < 4294967296 by decide) exHist
+    (by simp [exHist, Protocol, specStep, Live.set])
+    ⟨2, ⟨1, 5⟩, by simp [exHist, specRun, specStep, Live.set], by decide⟩
+
+end Examples
 end JF.C06
